@@ -64,7 +64,7 @@ CHECKS = {
         "Time-out boundary +-3 ms excluded; digest = variable value, added nodes, subscription counters.", "7/C19"),
 "C20": ("exploration", "deterministic simulation: generated endpoint/user configurations x seeded ActivateSession histories including malformed ciphertexts and replays after nonce rotation; configuration oracle",
         "Oracle (one direction): ActivateSession Good => the configured condition for that token kind holds for the session's current nonce; a token encrypted for an earlier nonce is never accepted.",
-        "User-name and anonymous tokens over None and secured channels (RSA 2048); X.509 user tokens are not generated.", "7/C20"),
+        "Anonymous, user-name (plain / encrypted) and X.509 user tokens (two X.509 users, a subset allowed per endpoint; right key, wrong key, wrong nonce, no signature) over None and secured channels (RSA 2048); replays of the token alone and of the whole request; a successful activation on a secured channel must rotate the nonce.", "7/C20"),
 "C30": ("exploration", "deterministic simulation: seeded Browse/BrowseNext/release/reuse histories interleaved with address-space modifications from 1-2 sessions; paged-equals-unpaged and continuation-point lifecycle oracle",
         "Oracle: concatenated pages == unpaged Browse in the same state; a point works once; invalid after release or any structural change; at most 20 points per session stay valid (dedicated overflow runs).",
         "Nodes have fewer than 255 references; wall clock strictly increasing so last_modified timestamps never tie.", "7/C30"),
